@@ -1,5 +1,6 @@
 import LyModel.Diff.Lemmas13Merge
 import LyModel.Diff.LemmasRevLit
+import LyModel.Diff.LemmasCancel
 /-!
 # C13 — the 4 × 4 operation table of `lyd_diff_merge_*`, cell by cell, against the composition of the two applications
 
@@ -296,9 +297,42 @@ theorem diff_chain_exact (S : Schema) (fx : Fixes) (A B C : List DNode) (hA : wf
   obtain ⟨B', h1, h2, h3, h4⟩ := Diff.diff_chain_exact S fx A B C hA hB hC hk
   exact ⟨exactDiff_diff S A B hA hB, B', h1, h2, (dataEqL_iff_norm B' B).mpr h3, h4⟩
 
+/-! ## merge_cancel at tree level -/
+
+/-- **merge_cancel**: merging the reversed diff of an exact diff `D` (in the metadata layout `lyd_diff_add` writes, `stdL`) into
+`D` leaves the empty diff — `lyd_diff_merge_all(D, lyd_diff_reverse_all(D)) = {}` — for trees of any depth: every reversed node
+finds its original, the cell of the table turns it into `none`, the recursion (created / deleted subtrees with inherited
+operations included) empties its children, `lyd_diff_is_redundant` drops it.  Both settings of `LYD_DIFF_MERGE_DEFAULTS`; no
+hypothesis on the `sort` callbacks (`KeyOrder` is not used): keyed lists are covered. -/
+theorem merge_cancel {S : Schema} {o : MergeOpts} {A D : List DNode} (hD : exactDiff S A D = true) (hstd : stdL D = true) :
+    ∃ R, reverse S D = .ok R ∧ mergeDiff o S D R = .ok [] :=
+  merge_reverse_empty hD hstd
+
+/-- … unconditionally for every computed diff of well-formed trees -/
+theorem merge_cancel_diff {S : Schema} {o : MergeOpts} {A B : List DNode} (hA : wfForest S A = true) (hB : wfForest S B = true) :
+    ∃ R, reverse S (diff S true A B) = .ok R ∧ mergeDiff o S (diff S true A B) R = .ok [] :=
+  merge_reverse_empty (exactDiff_diff S A B hA hB) (stdL_diff S A B hA hB)
+
+/-- a keyed list with nested content, a leaf-list and leaves: `l[1]` changed inside, `l[2]` deleted, `l[3]` created -/
+def mcS : Schema := { modName := "mc", nodes := [
+  { depth := 0, kind := .list, name := "l", nkeys := 1 },
+  { depth := 1, kind := .leaf, name := "k", iskey := true },
+  { depth := 1, kind := .leaf, name := "v", dflts := [bs "d"] },
+  { depth := 1, kind := .leaflist, name := "ll" },
+  { depth := 0, kind := .leaf, name := "top" } ] }
+def mcL (k : String) (ks : List DNode) : DNode := .inner 0 {} [] (.term 1 {} [] (bs k) :: ks)
+def mcA : List DNode := [ mcL "1" [.term 2 { dflt := true } [] (bs "d"), .term 3 {} [] (bs "a")], mcL "2" [.term 2 {} [] (bs "x")],
+  .term 4 {} [] (bs "t") ]
+def mcB : List DNode := [ mcL "1" [.term 2 {} [] (bs "e"), .term 3 {} [] (bs "b")], mcL "3" [.term 3 {} [] (bs "c")] ]
+
+example : wfForest mcS mcA = true ∧ wfForest mcS mcB = true ∧ (diff mcS true mcA mcB).length = 4 := by decide +kernel
+example : ∃ R, reverse mcS (diff mcS true mcA mcB) = .ok R ∧
+    mergeDiff { defaults := true } mcS (diff mcS true mcA mcB) R = .ok [] :=
+  merge_cancel_diff (by decide +kernel) (by decide +kernel)
+
 -- OPEN: `merge_apply_partial` — for good trees and exact diffs `D1` (for `A`, leading to `B`) and `D2` (for `B`, leading to `C`):
---   ∃ M C', mergeDiff o S D1 D2 = .ok M ∧ apply S A M fx = .ok C' ∧ dataEqL true C' C = true,
---   and `merge_cancel` at tree level (`mergeDiff o S D (reverse D) = .ok []`).
+--   ∃ M C', mergeDiff o S D1 D2 = .ok M ∧ apply S A M fx = .ok C' ∧ dataEqL true C' C = true.
+--   (`merge_cancel` at tree level is proved: above.)
 --   Hypotheses the tree statement needs, cell by cell (read off the leaf-cell theorems above): (delete, create) —
 --   `o.defaults = true → Generated.Diff13.mergeDfltNeedsDeletedDflt = true` (finding F18(b)); (none, replace) — the value the
 --   second diff sets is not default-flagged (`hnd` of `merge_cell_none_replace`: true for validated data, where a leaf that carries
@@ -308,7 +342,9 @@ theorem diff_chain_exact (S : Schema) (fx : Fixes) (A B C : List DNode) (hA : wf
 --   without keyed lists (Props/C13 `keyOrder_no_keyed_list`).
 --   Proved: every leaf cell (`merge_cell_*`, `merge_cancel_leaf`), the link to `applyNode` (`merge_cell_apply`), the
 --   unreachability of the rejected cells, the agreement of the table with the source (Props/C13.lean), and that computed diffs
---   meet the hypotheses (`diff_chain_exact`).  Not proved: the recursion of `mergeR` through the sibling list and through inner
+--   meet the hypotheses (`diff_chain_exact`), and the whole recursion of `mergeR` for the pairs (node, reversed node)
+--   (`merge_cancel`: Diff/LemmasCancel.lean has the machinery — `mergeStep_cancel`, `mergeKids_cancel_map`, the created / deleted
+--   subtrees with inherited operations `del_cancel` / `cre_cancel`).  Not proved: the recursion of `mergeR` through the sibling list and through inner
 --   nodes — (i) a forward specification of `apply` for exact diffs (the result as a function of the per-instance effects, so that
 --   the order of the diff nodes and `insertBySchema` / `placeBack` do not matter; `Lemmas13Rev.listRev` has it only implicitly),
 --   (ii) the cells for nodes whose operation is INHERITED (children of created / deleted subtrees: `mergeDelete` / `mergeCreate`
